@@ -35,6 +35,10 @@ func (s *IndexStorage) SetIndex(idx *index.Index) (err error) {
 		fi, statErr := s.dir.StatIndex()
 		if statErr == nil {
 			cp := copyIndex(idx)
+			// The encoder persists the entries only: extensions
+			// carried over from a previously decoded index are not
+			// in the file that was just written.
+			cp.Cache, cp.ResolveUndo, cp.EndOfIndexEntry = nil, nil, nil
 			cp.ModTime = fi.ModTime()
 			s.cache.Set(cp, fi.ModTime(), fi.Size())
 		} else {
